@@ -677,6 +677,20 @@ func GenLoad(rt *rapid.T) Case {
 		usedPaths[path] = true
 		c.Files = append(c.Files, LFile{Path: path, Doc: doc})
 	}
+	// translation files without any key: the empty object in its shortest spellings
+	if !big && hx.Chance(rt, 25, "emptyobj") {
+		for k := 0; k < 1+hx.Uniform(rt, 2, "nempty"); k++ {
+			path := genDirPath(rt) + "empty" + strconv.Itoa(k) + ".json"
+			if usedPaths[path] {
+				continue
+			}
+			usedPaths[path] = true
+			c.Files = append(c.Files, LFile{Path: path, Doc: []string{"{}", "{ }", "{\n}"}[hx.Uniform(rt, 3, "edoc")]})
+			if c.Reps < 2 {
+				c.Reps = 2
+			}
+		}
+	}
 	if !big {
 		nother := 0
 		if hx.Chance(rt, 50, "others") {
